@@ -1,6 +1,8 @@
 /* C16 harness: function-level tie of the accessors.  A state (fvalue, frad, dvalue, drad, mvalue with its precision and
- * limbs, wp, status, attrs, inclusion, again, lastphase, data_prec_max, mpwp) is written into a context of degree 1 through
- * the private API; then the calls a finished solve makes (mps_restore_data if asked, mps_copy_roots) and EVERY public accessor:
+ * limbs, wp, status, attrs, inclusion, again, lastphase, data_prec_max, mpwp) is written into a context of degree 2 through
+ * the private API (approximation 1; approximation 0 is a decoy with another precision and other values, so that the loops
+ * over the roots and their indices are exercised);
+ * then the calls a finished solve makes (mps_restore_data if asked, mps_copy_roots) and EVERY public accessor:
  *   mps_context_get_roots_d, mps_context_get_roots_m (library-allocated storage and the caller's storage of <pc> bits),
  *   mps_context_get_approximations, mps_approximation_get_{fvalue,dvalue,mvalue,frad,drad,status,attrs,again},
  *   mps_approximaiton_get_inclusion, mps_approximation_copy.
@@ -22,6 +24,7 @@
 #include <math.h>
 
 static char linebuf[1 << 20];
+static FILE *OUT;
 
 static double
 dbl_of_hex (const char *s)
@@ -37,16 +40,16 @@ put_dbl (double d)
 {
   uint64_t u;
   if (d != d)
-    { printf ("7ff8000000000000"); return; }
+    { fprintf (OUT, "7ff8000000000000"); return; }
   memcpy (&u, &d, 8);
-  printf ("%016llx", (unsigned long long)u);
+  fprintf (OUT, "%016llx", (unsigned long long)u);
 }
 
 static void
 put_rdpe (const rdpe_t e)
 {
   put_dbl (rdpe_Mnt (e));
-  printf (":%ld", rdpe_Esp (e));
+  fprintf (OUT, ":%ld", rdpe_Esp (e));
 }
 
 static void
@@ -57,17 +60,17 @@ put_mpf (const mpf_t f)
   while (k < n && f->_mp_d[k] == 0)
     k++;
   if (k >= n)
-    { printf ("%d:0:0", (int)f->_mp_prec); return; }
-  printf ("%d:%s%lx", (int)f->_mp_prec, f->_mp_size < 0 ? "-" : "", (unsigned long)f->_mp_d[n - 1]);
+    { fprintf (OUT, "%d:0:0", (int)f->_mp_prec); return; }
+  fprintf (OUT, "%d:%s%lx", (int)f->_mp_prec, f->_mp_size < 0 ? "-" : "", (unsigned long)f->_mp_d[n - 1]);
   for (i = n - 2; i >= k; i--)
-    printf ("%016lx", (unsigned long)f->_mp_d[i]);
-  printf (":%ld", (long)f->_mp_exp - n + k);
+    fprintf (OUT, "%016lx", (unsigned long)f->_mp_d[i]);
+  fprintf (OUT, ":%ld", (long)f->_mp_exp - n + k);
 }
 
 static void
 put_mpc (mpc_t c)
 {
-  put_mpf (mpc_Re (c)); printf (","); put_mpf (mpc_Im (c));
+  put_mpf (mpc_Re (c)); fprintf (OUT, ","); put_mpf (mpc_Im (c));
 }
 
 /* write the limbs of the hex integer into f (whose allocation is _mp_prec + 1 limbs) */
@@ -93,12 +96,12 @@ set_mpf_raw (mpf_t f, const char *hexman, long e)
 static void
 put_fields (cplx_t fv, cdpe_t dv, mpc_t mv, double frad, rdpe_t drad, long wp, int st, int at, int in, int ag)
 {
-  put_dbl (cplx_Re (fv)); printf (","); put_dbl (cplx_Im (fv)); printf (";");
-  put_rdpe (cdpe_Re (dv)); printf (","); put_rdpe (cdpe_Im (dv)); printf (";");
-  put_mpc (mv); printf (";");
-  put_dbl (frad); printf (";");
+  put_dbl (cplx_Re (fv)); fprintf (OUT, ","); put_dbl (cplx_Im (fv)); fprintf (OUT, ";");
+  put_rdpe (cdpe_Re (dv)); fprintf (OUT, ","); put_rdpe (cdpe_Im (dv)); fprintf (OUT, ";");
+  put_mpc (mv); fprintf (OUT, ";");
+  put_dbl (frad); fprintf (OUT, ";");
   put_rdpe (drad);
-  printf (";%ld;%d;%d;%d;%d", wp, st, at, in, ag);
+  fprintf (OUT, ";%ld;%d;%d;%d;%d", wp, st, at, in, ag);
 }
 
 static void
@@ -129,7 +132,30 @@ put_getters (mps_context *s, mps_approximation *a, long pc)
   mpc_clear (mv);
 }
 
+/* the state of one approximation, from the tokens of the line */
+static int
+write_state (mps_approximation *r, char **tok, long mprec)
+{
+  cplx_set_d (r->fvalue, dbl_of_hex (tok[6]), dbl_of_hex (tok[7]));
+  r->frad = dbl_of_hex (tok[8]);
+  rdpe_Mnt (cdpe_Re (r->dvalue)) = dbl_of_hex (tok[9]);  rdpe_Esp (cdpe_Re (r->dvalue)) = atol (tok[10]);
+  rdpe_Mnt (cdpe_Im (r->dvalue)) = dbl_of_hex (tok[11]); rdpe_Esp (cdpe_Im (r->dvalue)) = atol (tok[12]);
+  rdpe_Mnt (r->drad) = dbl_of_hex (tok[13]); rdpe_Esp (r->drad) = atol (tok[14]);
+  mpc_set_prec (r->mvalue, mprec);
+  if (!set_mpf_raw (mpc_Re (r->mvalue), tok[16], atol (tok[17])) || !set_mpf_raw (mpc_Im (r->mvalue), tok[18], atol (tok[19])))
+    return 0;
+  r->wp = atol (tok[20]);
+  r->status = (mps_root_status)atoi (tok[21]);
+  r->attrs = (mps_root_attrs)atoi (tok[22]);
+  r->inclusion = (mps_root_inclusion)atoi (tok[23]);
+  r->again = atoi (tok[24]) ? true : false;
+
+  return 1;
+}
+
 #define NTOK 25
+static char *decoy[NTOK] = { "decoy", "m", "0", "0", "0", "64", "3ff8000000000000", "c000000000000000", "3e70000000000000",
+  "3fe8000000000000", "3", "bfe0000000000000", "-2", "3fe0000000000000", "-20", "64", "5", "0", "-3", "-1", "64", "1", "0", "0", "0" };
 static void
 do_line (char *line)
 {
@@ -142,20 +168,23 @@ do_line (char *line)
   int restore;
   cplx_t *droots = NULL;
   double *drad = NULL, xd, xa;
-  mpc_t *mroots = NULL;
-  rdpe_t *mrad = NULL;
+  mpc_t *mroots = NULL, *mroots1 = NULL;
+  rdpe_t *mrad = NULL, *mrad1 = NULL;
+  char *text[4] = { NULL, NULL, NULL, NULL };
+  size_t tlen[4];
+  int k;
 
   for (t = strtok_r (line, " \n", &save); t && nt < NTOK + 4; t = strtok_r (NULL, " \n", &save))
     tok[nt++] = t;
   if (nt == 0)
     return;
   if (nt < NTOK)
-    { printf ("%s ERROR short line\n", tok[0]); return; }
+    { fprintf (OUT, "%s ERROR short line\n", tok[0]); return; }
   dpm = atol (tok[2]); restore = atoi (tok[3]); pc = atol (tok[4]); mpwp = atol (tok[5]); mprec = atol (tok[15]);
 
   s = mps_context_new ();
-  p = mps_monomial_poly_new (s, 1);
-  mps_monomial_poly_set_coefficient_int (s, p, 1, 1, 0);
+  p = mps_monomial_poly_new (s, 2);
+  mps_monomial_poly_set_coefficient_int (s, p, 2, 1, 0);
   mps_monomial_poly_set_coefficient_int (s, p, 0, -1, 0);
   mps_context_set_input_poly (s, MPS_POLYNOMIAL (p));
   mps_allocate_data (s);
@@ -164,57 +193,53 @@ do_line (char *line)
   s->lastphase = tok[1][0] == 'f' ? float_phase : tok[1][0] == 'd' ? dpe_phase : mp_phase;
   s->data_prec_max.value = dpm;
 
-  r = s->root[0];
-  cplx_set_d (r->fvalue, dbl_of_hex (tok[6]), dbl_of_hex (tok[7]));
-  r->frad = dbl_of_hex (tok[8]);
-  rdpe_Mnt (cdpe_Re (r->dvalue)) = dbl_of_hex (tok[9]);  rdpe_Esp (cdpe_Re (r->dvalue)) = atol (tok[10]);
-  rdpe_Mnt (cdpe_Im (r->dvalue)) = dbl_of_hex (tok[11]); rdpe_Esp (cdpe_Im (r->dvalue)) = atol (tok[12]);
-  rdpe_Mnt (r->drad) = dbl_of_hex (tok[13]); rdpe_Esp (r->drad) = atol (tok[14]);
-  mpc_set_prec (r->mvalue, mprec);
-  if (!set_mpf_raw (mpc_Re (r->mvalue), tok[16], atol (tok[17])) || !set_mpf_raw (mpc_Im (r->mvalue), tok[18], atol (tok[19])))
-    { printf ("%s ERROR mantissa does not fit the precision\n", tok[0]); mps_context_free (s); return; }
-  r->wp = atol (tok[20]);
-  r->status = (mps_root_status)atoi (tok[21]);
-  r->attrs = (mps_root_attrs)atoi (tok[22]);
-  r->inclusion = (mps_root_inclusion)atoi (tok[23]);
-  r->again = atoi (tok[24]) ? true : false;
-
+  /* root 0 is a decoy with its own (small) precision and values, root 1 gets the state of the line and is the one printed */
+  write_state (s->root[0], decoy, 64);
+  if (!write_state (s->root[1], tok, mprec))
+    { fprintf (OUT, "%s ERROR mantissa does not fit the precision\n", tok[0]); mps_context_free (s); return; }
+  r = s->root[s->n - 1];
   /* what the end of a solve does (unisolve/main.c: mps_restore_data; both algorithms: mps_copy_roots) */
   if (restore)
     mps_restore_data (s);
   mps_copy_roots (s);
 
-  printf ("%s S=", tok[0]);
-  put_approx (r);
-
+  /* call every accessor once, then print what it handed out for each root; the two roots hold the same state, so the two
+   * texts must be equal (EQ=1): the text of the last root is the output */
   mps_context_get_roots_d (s, &droots, &drad);
-  printf (" D="); put_dbl (cplx_Re (droots[0])); printf (","); put_dbl (cplx_Im (droots[0])); printf (";"); put_dbl (drad[0]);
-  xd = cplx_mod (droots[0]);
-
   mps_context_get_roots_m (s, &mroots, &mrad);
-  printf (" M0="); put_mpc (mroots[0]); printf (";"); put_rdpe (mrad[0]);
-  mpc_vclear (mroots, s->n); free (mroots); free (mrad);
-
-  mroots = mpc_valloc (s->n);
-  mpc_vinit2 (mroots, s->n, pc);
+  mroots1 = mpc_valloc (s->n);
+  mpc_vinit2 (mroots1, s->n, pc);
   for (i = 0; i < s->n; i++)
-    mpc_set_d (mroots[i], -7.000000000000001, 0.3333333333333333);
-  mrad = rdpe_valloc (s->n);
-  mps_context_get_roots_m (s, &mroots, &mrad);
-  printf (" M1="); put_mpc (mroots[0]); printf (";"); put_rdpe (mrad[0]);
-  mpc_vclear (mroots, s->n); free (mroots); free (mrad);
-
+    mpc_set_d (mroots1[i], -7.000000000000001, 0.3333333333333333);
+  mrad1 = rdpe_valloc (s->n);
+  mps_context_get_roots_m (s, &mroots1, &mrad1);
   ap = mps_context_get_approximations (s);
-  printf (" A="); put_approx (ap[0]);
-  xa = cplx_mod (ap[0]->fvalue);
-  printf (" GA="); put_getters (s, ap[0], pc);
-  printf (" GR="); put_getters (s, r, pc);
-  cp = mps_approximation_copy (s, r);
-  printf (" C="); put_approx (cp);
-  printf (" XD="); put_dbl (xd); printf (" XA="); put_dbl (xa);
-  printf ("\n");
+  for (k = 0; k < s->n; k++)
+    {
+      OUT = open_memstream (&text[k], &tlen[k]);
+      r = s->root[k];
+      fprintf (OUT, "S="); put_approx (r);
+      fprintf (OUT, " D="); put_dbl (cplx_Re (droots[k])); fprintf (OUT, ","); put_dbl (cplx_Im (droots[k])); fprintf (OUT, ";"); put_dbl (drad[k]);
+      xd = cplx_mod (droots[k]);
+      fprintf (OUT, " M0="); put_mpc (mroots[k]); fprintf (OUT, ";"); put_rdpe (mrad[k]);
+      fprintf (OUT, " M1="); put_mpc (mroots1[k]); fprintf (OUT, ";"); put_rdpe (mrad1[k]);
+      fprintf (OUT, " A="); put_approx (ap[k]);
+      xa = cplx_mod (ap[k]->fvalue);
+      fprintf (OUT, " GA="); put_getters (s, ap[k], pc);
+      fprintf (OUT, " GR="); put_getters (s, r, pc);
+      cp = mps_approximation_copy (s, r);
+      fprintf (OUT, " C="); put_approx (cp);
+      mps_approximation_free (s, cp);
+      fprintf (OUT, " XD="); put_dbl (xd); fprintf (OUT, " XA="); put_dbl (xa);
+      fclose (OUT);
+      OUT = stdout;
+    }
+  fprintf (OUT, "%s %s\n", tok[0], text[s->n - 1]);
+  for (k = 0; k < s->n; k++)
+    free (text[k]);
+  mpc_vclear (mroots, s->n); free (mroots); free (mrad);
+  mpc_vclear (mroots1, s->n); free (mroots1); free (mrad1);
 
-  mps_approximation_free (s, cp);
   for (i = 0; i < s->n + s->zero_roots; i++)
     mps_approximation_free (s, ap[i]);
   free (ap);
@@ -225,6 +250,7 @@ do_line (char *line)
 int
 main (void)
 {
+  OUT = stdout;
   while (fgets (linebuf, sizeof (linebuf), stdin))
     {
       do_line (linebuf);
